@@ -56,12 +56,31 @@ M = [
  ("C17", "reverse-order", "src/compile.rs", "for pipeline in &ir.pipelines {", "for pipeline in ir.pipelines.iter().rev() {", ["C17.select/source-order"]),
  ("C17", "duplicate-check-dropped", "typer/src/typer/pipelines.rs", "        return Err(TyperError::PipelineDuplicate(pipeline.name.location));", "        let _ = TyperError::PipelineDuplicate(pipeline.name.location);", ["C17.dup/unique-names"]),
  ("C18", "vulkan-flag-in-function-export", "hlsl/src/ast_generate.rs", "let return_type = generate_type(sig.return_type.return_type, context)?;", "let return_type = generate_type(sig.return_type.return_type, context)?; if context.module.flags.requires_vk_binding { attributes.clear(); }", ["C18.confine/generate_function_inner"]),
+ ("C12", "macro-arguments-not-expanded", "preprocess/src/preprocess.rs", "let subbed_text = apply_macros(arg, macro_defs, false, source_manager)?;", "let subbed_text = arg.to_vec();", []),
+ ("C09", "float32-printed-without-suffix", "formatter/src/formatter.rs", 'ast::Literal::Float32(v) => write!(output, "{v}f").unwrap(),', 'ast::Literal::Float32(v) => write!(output, "{v}").unwrap(),', []),
+ ("C03", "swizzle-type-drops-modifier", "ir/src/ir_expressions.rs", "                let ty = module.type_registry.combine_modifier(ty, vec_mod);", "                let ty = { let _ = vec_mod; ty };", []),
+ ("C03", "casts-applied-from-first", "typer/src/typer/expressions.rs", ".map(|(index, value)| casts[index].apply(value, &mut context.module))", ".map(|(index, value)| casts[index.min(0)].apply(value, &mut context.module))", []),
+ ("C03", "return-value-unconverted", "typer/src/typer/statements.rs", "                    kind: ir::StatementKind::Return(Some(\n                        rhs_cast.apply(expr_ir, &mut context.module),\n                    )),", "                    kind: ir::StatementKind::Return(Some({ let _ = &rhs_cast; expr_ir })),", []),
+ ("C03", "constructor-slot-arity", "typer/src/typer/expressions.rs", "slots.push(ir::ConstructorSlot { arity, expr });", "slots.push(ir::ConstructorSlot { arity: arity.min(1), expr });", []),
+ ("C13", "negative-literal-as-count", "ir/src/ir_types.rs", "Constant::IntLiteral(v) if *v >= 0 && *v <= u64::MAX as i128 => Some(*v as u64),", "Constant::IntLiteral(v) if *v <= u64::MAX as i128 => Some(*v as u64),", []),
+ ("C08", "scope-walk-from-start", "typer/src/typer/scopes.rs", "            let outer = current;", "            let outer = start;", []),
+ ("C08", "blend-state-eight", "typer/src/typer/pipelines.rs", '            | "BlendState5" | "BlendState6" | "BlendState7" => {', '            | "BlendState5" | "BlendState6" | "BlendState7" | "BlendState8" => {', []),
+ ("C15", "qualified-path-reversed", "ir/src/name_generator.rs", "            segmented_name.insert(0, current_name.name.clone());", "            segmented_name.push(current_name.name.clone());", []),
+ ("C10", "u32-suffix-unchecked", "preprocess/src/lexer.rs", "        Some(IntType::Unsigned32) => match u32::try_from(value) {\n            Ok(value) => Token::LiteralIntUnsigned32(u64::from(value)),\n            Err(_) => return literal_too_large(start_input),\n        },", "        Some(IntType::Unsigned32) => Token::LiteralIntUnsigned32(value & 0xffff_ffff),", []),
+ ("C10", "exponent-sign-lost", "preprocess/src/lexer.rs", "    text.push_str(&exponent.to_string());", "    text.push_str(&exponent.abs().to_string());", []),
+ ("C11", "and-binds-looser-than-or", "preprocess/src/condition_parser.rs", "[Token::VerticalBarVerticalBar, rest @ ..] => Ok((rest, BinOp::BooleanOr)),", "[Token::AmpersandAmpersand, rest @ ..] => Ok((rest, BinOp::BooleanAnd)),", []),
+ ("C18", "layout-validation-hlsl-only", "src/compile.rs", "    if args.validate_layout_consistency\n        && let Err(err) = ir::layout_checker::check_layout(&ir)", "    if args.validate_layout_consistency\n        && !matches!(args.target, Target::Msl)\n        && let Err(err) = ir::layout_checker::check_layout(&ir)", []),
+ ("C17", "name-filter-dropped", "src/compile.rs", "            if let Some(name) = args.pipeline_name\n                && pipeline.name.node != name\n            {\n                continue;\n            }\n", "", []),
  ("C19", "validation-not-gated", "src/compile.rs", "if args.validate_layout_consistency\n        && let Err(err) = ir::layout_checker::check_layout(&ir)", "if !args.no_pipeline_mode\n        && let Err(err) = ir::layout_checker::check_layout(&ir)", ["C19.wire/iff-enabled"]),
  ("C19", "struct-align-up-removed", "ir/src/layout_checker.rs", "layout.size = layout.size.next_multiple_of(member_layout.align);\n", "", ["C19.shape/layout/Metal", "C19.shape/verdict"]),
 ]
 
 
 def main():
+    # the rule instances that report each mutant on the current engine (written by bin/refresh_mutants) override the
+    # lists typed into the table above
+    exp_path = os.path.join(os.path.dirname(os.path.abspath(__file__)), "expected_keys.json")
+    EXP = json.load(open(exp_path)) if os.path.exists(exp_path) else {}
     os.makedirs(OUT, exist_ok=True)
     for fn in os.listdir(OUT):
         os.remove(os.path.join(OUT, fn))
@@ -76,7 +95,7 @@ def main():
         diff = "".join(difflib.unified_diff(src.splitlines(True), dst.splitlines(True), "a/" + rel, "b/" + rel))
         base = os.path.join(OUT, "%s-%s" % (pid, name))
         open(base + ".diff", "w").write(diff)
-        json.dump({"property": pid, "name": name, "file": rel, "expect_keys": keys}, open(base + ".json", "w"), indent=1)
+        json.dump({"property": pid, "name": name, "file": rel, "expect_keys": EXP.get("%s-%s" % (pid, name), keys)}, open(base + ".json", "w"), indent=1)
         n += 1
     print("wrote %d mutants" % n)
 
